@@ -185,12 +185,12 @@ def run(ctx):
     rng = np.random.RandomState(ctx.seed + 6)
     recs = []
     with tmp_dir(ctx) as d:
-        for k in range(40 if ctx.quick else 400):
+        for k in range(150 if ctx.quick else 1200):
             recs += _store_records(ctx, d, rng, k, len(recs) + 1)
             if ctx.abort:
                 return
     with tmp_dir(ctx) as d:
-        pca, discarded = _pca_records(ctx, rng, 60 if ctx.quick else 600, len(recs) + 1, d)
+        pca, discarded = _pca_records(ctx, rng, 150 if ctx.quick else 1500, len(recs) + 1, d)
     if ctx.abort:
         return
     recs += pca
